@@ -16,6 +16,7 @@ import (
 	"github.com/nspcc-dev/neo-go/pkg/core/mpt"
 	"github.com/nspcc-dev/neo-go/pkg/core/native"
 	"github.com/nspcc-dev/neo-go/pkg/core/state"
+	"github.com/nspcc-dev/neo-go/pkg/core/storage"
 	"github.com/nspcc-dev/neo-go/pkg/core/transaction"
 	"github.com/nspcc-dev/neo-go/pkg/crypto/keys"
 	"github.com/nspcc-dev/neo-go/pkg/encoding/fixedn"
@@ -179,8 +180,28 @@ func extraCodecs() []*codec {
 	})
 	out = append(out, ndl)
 
-	// a plain list of public keys as io.Serializable array (validators in the
-	// NEO native state, `keys.PublicKeys.DecodeBytes` is registered already)
+	dv := &codec{
+		name: "dao.Version", pkg: "pkg/core/dao", cheap: true,
+		gen: func(bool) []any {
+			var vs []any
+			for i, val := range []string{"", "0.2.12", "v"} {
+				for m := 0; m < 32; m += 1 + 2*i {
+					vs = append(vs, &dao.Version{StoragePrefix: storage.KeyPrefix(u8s[i]), StateRootInHeader: m&1 != 0, P2PSigExtensions: m&2 != 0, P2PStateExchangeExtensions: m&4 != 0,
+						KeepOnlyLatestState: m&8 != 0, SaveInvocations: m&16 != 0, Magic: u32s[i], Value: val})
+				}
+			}
+			return vs
+		},
+		enc: func(v any) ([]byte, error) { return v.(*dao.Version).Bytes(), nil },
+		dec: func(b []byte) (any, error) {
+			var v dao.Version
+			if err := v.FromBytes(b); err != nil {
+				return nil, err
+			}
+			return &v, nil
+		},
+	}
+	out = append(out, dv)
 	return out
 }
 
